@@ -116,6 +116,10 @@ fn trees() -> Vec<(String, CmdSpec)> {
     let mut deep = CmdSpec::new("deep");
     deep.args.push(ArgSpec::flag("y", Some('y'), Some("yank")));
     build.subs.push(deep);
+    // a hidden subcommand two levels below the root, next to the visible `deep`
+    let mut dark = CmdSpec::new("dark");
+    dark.hide = true;
+    build.subs.push(dark);
     let mut bench = CmdSpec::new("bench");
     bench.args.push(ArgSpec::flag("quick", Some('q'), Some("quick")));
     let mut hid = CmdSpec::new("hidsub");
@@ -175,6 +179,11 @@ fn prefixes(spec: &CmdSpec) -> Vec<(Vec<&'static str>, Vec<&'static str>)> {
             // an option given with an attached empty value is complete: the next word starts afresh
             (vec!["build", "--target="], vec!["build"]),
             (vec!["hidsub"], vec!["hidsub"]),
+            // the generated help subcommand and the copies of the tree below it
+            (vec!["help"], vec![]),
+            (vec!["help", "build"], vec!["build"]),
+            (vec!["help", "hidsub"], vec!["hidsub"]),
+            (vec!["help", "build", "deep"], vec!["build", "deep"]),
             (vec!["hidsub", "-d"], vec!["hidsub"]),
             (vec!["hidsub", "dump"], vec!["hidsub", "dump"]),
         ]);
@@ -267,6 +276,35 @@ fn check_b(spec: &CmdSpec, cmd: &clap::Command, prefix: &[&str], path: &[&str], 
         }
     }
     let cand_strs: Vec<String> = cands.iter().map(|c| String::from_utf8_lossy(&c.0).to_string()).collect();
+    if prefix.first() == Some(&"help") {
+        // below the generated `help` subcommand the words name a path of subcommands: only the names
+        // (no aliases, no options) of the subcommands of the command reached continue the line;
+        // `help` itself is offered right after the first `help`
+        let mut names: Vec<(String, bool)> = lvl.subs.iter().map(|s| (s.name.clone(), s.hide)).collect();
+        if path.is_empty() && !lvl.subs.is_empty() {
+            names.push(("help".into(), false));
+        }
+        let visible_match = names.iter().any(|(n, hid)| !hid && n.starts_with(partial));
+        for c in &cand_strs {
+            match names.iter().find(|(n, _)| n == c) {
+                None => bad.push(("an offered subcommand does not exist at the level reached".into(), format!("prefix {:?} word {:?} candidate {:?}", prefix, partial, c))),
+                Some((_, hid)) => {
+                    if !c.starts_with(partial) {
+                        bad.push(("a candidate does not extend the word under the cursor".into(), format!("word {:?} candidate {:?}", partial, c)));
+                    }
+                    if *hid && visible_match {
+                        bad.push(("a hidden item is offered although something visible matches".into(), format!("prefix {:?} word {:?}: {:?} among {:?}", prefix, partial, c, cand_strs)));
+                    }
+                }
+            }
+        }
+        for (n, hid) in &names {
+            if !hid && n.starts_with(partial) && !cand_strs.contains(n) {
+                bad.push(("a visible option or subcommand that extends the word is not offered".into(), format!("prefix {:?} word {:?}: {} missing from {:?}", prefix, partial, n, cand_strs)));
+            }
+        }
+        return bad;
+    }
     let all_sub_names: BTreeSet<String> = {
         fn walk(c: &CmdSpec, s: &mut BTreeSet<String>) {
             for x in &c.subs {
